@@ -81,6 +81,14 @@ class TOFUDatabase:
         """
         conn = sqlite3.connect(str(self.db_path))
         conn.row_factory = sqlite3.Row
+        # Host names are compared with COLLATE NOCASE. SQLite's own NOCASE folds
+        # A-Z only, while connections look pins up under str.lower() of the host
+        # (the URL parser's lower-casing): the two must agree for every letter,
+        # or a pin for "ÉCOLE.example" is never found.
+        conn.create_collation(
+            "NOCASE",
+            lambda a, b: (a.lower() > b.lower()) - (a.lower() < b.lower()),
+        )
         try:
             yield conn
         finally:
